@@ -651,6 +651,15 @@ class SingleAdapter(Adapter, ABC):
             # Kmers too long.
             return MockKmerFinder()
 
+    def _is_shorter_than_adapter(self, sequence: str) -> bool:
+        """
+        Return whether the read is so short that all of it could be aligned to an
+        inner part of the adapter (possible only if both ends of the adapter may be
+        skipped). The k-mer heuristic does not cover this case.
+        """
+        max_errors = int(len(self.sequence) * self.max_error_rate) if self.indels else 0
+        return len(sequence) < len(self.sequence) + max_errors
+
     def __repr__(self):
         return (
             "<{cls}(name={name!r}, sequence={sequence!r}, "
@@ -725,7 +734,9 @@ class FrontAdapter(SingleAdapter):
         return None if no match was found given the matching criteria (minimum
         overlap length, maximum error rate).
         """
-        if not self.kmer_finder.kmers_present(sequence):
+        if not (
+            self._force_anywhere and self._is_shorter_than_adapter(sequence)
+        ) and not self.kmer_finder.kmers_present(sequence):
             return None
         alignment: Optional[Tuple[int, int, int, int, int, int]] = self.aligner.locate(
             sequence
@@ -777,7 +788,9 @@ class RightmostFrontAdapter(FrontAdapter):
         overlap length, maximum error rate).
         """
         reversed_sequence = sequence[::-1]
-        if not self.kmer_finder.kmers_present(reversed_sequence):
+        if not (
+            self._force_anywhere and self._is_shorter_than_adapter(sequence)
+        ) and not self.kmer_finder.kmers_present(reversed_sequence):
             return None
         alignment: Optional[Tuple[int, int, int, int, int, int]] = self.aligner.locate(
             reversed_sequence
@@ -833,7 +846,9 @@ class BackAdapter(SingleAdapter):
         return None if no match was found given the matching criteria (minimum
         overlap length, maximum error rate).
         """
-        if not self.kmer_finder.kmers_present(sequence):
+        if not (
+            self._force_anywhere and self._is_shorter_than_adapter(sequence)
+        ) and not self.kmer_finder.kmers_present(sequence):
             return None
         alignment: Optional[Tuple[int, int, int, int, int, int]] = self.aligner.locate(
             sequence
@@ -878,7 +893,9 @@ class AnywhereAdapter(SingleAdapter):
         return None if no match was found given the matching criteria (minimum
         overlap length, maximum error rate).
         """
-        if not self.kmer_finder.kmers_present(sequence):
+        if not self._is_shorter_than_adapter(
+            sequence
+        ) and not self.kmer_finder.kmers_present(sequence):
             return None
         alignment = self.aligner.locate(sequence.upper())
         if self._debug:
